@@ -423,9 +423,42 @@ def grid_range(facts, res):
     fld = re.search(r"return(\w+);", facts.ntext(tbf.body(acc[0])))
     ini = [i for i in ctor[0].get("inits", []) if fld and i.get("member") == fld.group(1)]
     init_txt = " ".join(facts.ntext(c) for c in ini[0].get("c", []) if c) if ini else ""
-    wname, hname = ctor[0]["params"][1]["name"], ctor[0]["params"][0]["name"]
-    if not re.search(r"MulToVec\(%s,RealType\(1\)/RealType\(1<<\(%s-1\)\)\)" % (re.escape(wname), re.escape(hname)), init_txt):
-        raise AnalysisBroken("TbfSpacialConfiguration: leaf width is not initialised as box width / 2^(height-1): %s" % init_txt[:120])
+    wdid, hdid = ctor[0]["params"][1]["did"], ctor[0]["params"][0]["did"]
+
+    def sym(nd):
+        """exact value of a scalar expression over the constructor's height parameter (casts are transparent, << is a power of two)"""
+        nd = strip(nd)
+        k = nd.get("k")
+        if k == "IntegerLiteral":
+            return sympy.Integer(nd["val"])
+        if k == "FloatingLiteral":
+            return sympy.nsimplify(nd["val"])
+        if k == "DeclRefExpr" and nd.get("did") == hdid:
+            return h
+        if k in ("CXXStaticCastExpr", "CStyleCastExpr", "CXXFunctionalCastExpr", "CXXUnresolvedConstructExpr") and len(kids(nd)) == 1:
+            return sym(kids(nd)[0])
+        if k == "UnaryOperator" and nd.get("op") == "-":
+            return -sym(kids(nd)[0])
+        if k == "BinaryOperator" and nd.get("op") in ("+", "-", "*", "/", "<<"):
+            a, b = sym(kids(nd)[0]), sym(kids(nd)[1])
+            return {"+": lambda: a + b, "-": lambda: a - b, "*": lambda: a * b, "/": lambda: a / b, "<<": lambda: a * 2 ** b}[nd["op"]]()
+        if k in ("CallExpr",) and tbf.callee_name(nd) in ("pow", "ldexp") and len(tbf.call_args(nd)) == 2:
+            a, b = [sym(x_) for x_ in tbf.call_args(nd)]
+            return a ** b if tbf.callee_name(nd) == "pow" else a * 2 ** b
+        raise AnalysisBroken("TbfSpacialConfiguration: leaf width initialiser not understood: %s" % facts.ntext(nd)[:80])
+
+    scale = None
+    for c in (ini[0].get("c", []) if ini else []):
+        for x_ in walk(c):
+            if x_.get("k") == "CallExpr" and tbf.callee_name(x_) == "MulToVec" and len(tbf.call_args(x_)) == 2:
+                a0 = strip(tbf.call_args(x_)[0])
+                if a0.get("k") == "DeclRefExpr" and a0.get("did") == wdid:
+                    scale = sym(tbf.call_args(x_)[1])
+    if scale is None:
+        raise AnalysisBroken("TbfSpacialConfiguration: leaf width is not initialised as (box widths) x (a factor): %s" % init_txt[:120])
+    if sympy.simplify(scale - 1 / sympy.Integer(2) ** (h - 1)) != 0:
+        res.violation(R, tbf.rel(facts.path_of(ctor[0])), ctor[0]["qname"], "leaf-width", ctor[0]["l"][1],
+                      "the leaf width is the box width times %s, not the box width / 2^(height-1): positions no longer map onto the 2^(height-1) cells per dimension" % scale)
     res.instance(R, "leaf width", facts.loc(ctor[0]), "leaf width = box width / 2^(height-1)  (%s)" % init_txt[:80])
 
     def norm(e):
